@@ -204,3 +204,28 @@ pub fn handle_srt_packet_fut<'a>(
         critical_window,
     )
 }
+
+pub use super::packet_handler::vh_send_stall_probes_fut as send_stall_probes_fut;
+
+#[allow(clippy::too_many_arguments)]
+pub fn forward_via_connection_fut<'a>(
+    sel_idx: usize,
+    pkt: &'a [u8],
+    seq: Option<u32>,
+    connections: &'a mut [SrtlaConnection],
+    conn_io: &'a ConnIoMap,
+    last_selected_idx: &'a mut Option<usize>,
+    seq_tracker: &'a mut SequenceTracker,
+    packet_time_ms: u64,
+) -> impl std::future::Future<Output = ()> + 'a {
+    super::packet_handler::forward_via_connection(
+        sel_idx,
+        pkt,
+        seq,
+        connections,
+        conn_io,
+        last_selected_idx,
+        seq_tracker,
+        packet_time_ms,
+    )
+}
